@@ -39,49 +39,71 @@ let of_derror (e : Driver.derror) : t =
 
 exception Conflict of string
 
+(* oracle record from its s-expression, with the pop table recorded by a first run of Driver.compile for [sh] *)
+let oracles_of (sh : Extracted.Ast.shell) (o : t) (text : char list) : Compiler.oracles =
+  let scripts = Array.of_list (List.map (fun s -> Array.of_list (List.map int_ (list_ s))) (field "pops" o)) in
+  let fuel = Drv_driver.fuel_of (int_ (List.hd (field "fuel" o))) in
+  let om = Drv_emit.ord_of (List (field "mainlits" o)) in
+  let os = Drv_emit.ord_subs_of (List (field "sublits" o)) in
+  let groups = List.map (fun g -> List.map n_ (list_ g)) (field "groups" o) in
+  let sg = cl (string_ (List.hd (field "sig" o))) in
+  let cursor = ref (-1) in
+  let seen : (int * int list list, int) Hashtbl.t = Hashtbl.create 64 in
+  let table = ref [] in
+  let pick step todo =
+    let n = int_of_nat step in
+    if n = 0 then incr cursor;
+    let idx =
+      if !cursor < Array.length scripts && n < Array.length scripts.(!cursor) then begin
+        let s = scripts.(!cursor) in
+        let k = s.(n) in
+        let smaller = ref 0 in
+        for j = 0 to n - 1 do if s.(j) < k then incr smaller done;
+        k - 1 - !smaller
+      end else 0 in
+    let key = (n, List.map (List.map int_of_n) todo) in
+    (match Hashtbl.find_opt seen key with
+     | Some i when i <> idx -> raise (Conflict (Printf.sprintf "step %d" n))
+     | Some _ -> ()
+     | None ->
+         Hashtbl.replace seen key idx;
+         if todo <> [] then table := ((step, todo), nat_of_int idx) :: !table);
+    nat_of_int idx in
+  ignore (Driver.compile pick fuel Extracted.Consts.builtins text sh);
+  { Compiler.o_pops = List.rev !table; o_fuel = fuel; o_main_lits = om; o_sub_lits = os;
+    o_groups = groups; o_sig = sg }
+
+let of_cres (f : 'a -> t) (r : (Compiler.cerror, 'a) P.outcome) : t =
+  match r with
+  | P.Ok s -> f s
+  | P.Err (Compiler.CDriver e) -> of_derror e
+  | P.Err Compiler.CBadOracle -> List [Atom "err"; Atom "oracle"]
+  | P.Panic s -> List [Atom "panic"; ss s]
+  | P.OutOfFuel -> List [Atom "outoffuel"]
+
 let () =
   register "compilebash" (fun v ->
       match v with
       | List [o; text] ->
-          let scripts = Array.of_list (List.map (fun s -> Array.of_list (List.map int_ (list_ s))) (field "pops" o)) in
-          let fuel = Drv_driver.fuel_of (int_ (List.hd (field "fuel" o))) in
-          let om = Drv_emit.ord_of (List (field "mainlits" o)) in
-          let os = Drv_emit.ord_subs_of (List (field "sublits" o)) in
-          let groups = List.map (fun g -> List.map n_ (list_ g)) (field "groups" o) in
-          let sg = cl (string_ (List.hd (field "sig" o))) in
           let text = cl (string_ text) in
-          (* ---- first run: record the pop table *)
-          let cursor = ref (-1) in
-          let seen : (int * int list list, int) Hashtbl.t = Hashtbl.create 64 in
-          let table = ref [] in
-          let pick step todo =
-            let n = int_of_nat step in
-            if n = 0 then incr cursor;
-            let idx =
-              if !cursor < Array.length scripts && n < Array.length scripts.(!cursor) then begin
-                let s = scripts.(!cursor) in
-                let k = s.(n) in
-                let smaller = ref 0 in
-                for j = 0 to n - 1 do if s.(j) < k then incr smaller done;
-                k - 1 - !smaller
-              end else 0 in
-            let key = (n, List.map (List.map int_of_n) todo) in
-            (match Hashtbl.find_opt seen key with
-             | Some i when i <> idx -> raise (Conflict (Printf.sprintf "step %d" n))
-             | Some _ -> ()
-             | None ->
-                 Hashtbl.replace seen key idx;
-                 if todo <> [] then table := ((step, todo), nat_of_int idx) :: !table);
-            nat_of_int idx in
           (try
-             ignore (Driver.compile pick fuel Extracted.Consts.builtins text Extracted.Ast.Bash);
-             let o' = { Compiler.o_pops = List.rev !table; o_fuel = fuel; o_main_lits = om; o_sub_lits = os;
-                        o_groups = groups; o_sig = sg } in
-             (match Compiler.compile_bash o' Extracted.Consts.builtins text with
-              | P.Ok s -> List [Atom "ok"; ss s]
-              | P.Err (Compiler.CDriver e) -> of_derror e
-              | P.Err Compiler.CBadOracle -> List [Atom "err"; Atom "oracle"]
-              | P.Panic s -> List [Atom "panic"; ss s]
-              | P.OutOfFuel -> List [Atom "outoffuel"])
+             let o' = oracles_of Extracted.Ast.Bash o text in
+             of_cres (fun s -> List [Atom "ok"; ss s]) (Compiler.compile_bash o' Extracted.Consts.builtins text)
            with Conflict m -> List [Atom "oracle-conflict"; Str m])
       | _ -> raise (Shape "compilebash args"))
+
+(* compiledata <shell> <oracles> "<text>" -> (ok ("kind" "text") ...) | (err ...) | ...
+   [Model/Compiler.v: compile_data sh = Driver.compile .. sh ; Tables.all_tables sh ; EmitData.{Z,P,F}.data --
+    the data sections of the fish / zsh / pwsh script from the source text] *)
+let () =
+  register "compiledata" (fun v ->
+      match v with
+      | List [sh; o; text] ->
+          let text = cl (string_ text) in
+          let sh = Ast_io.shell_of sh in
+          (try
+             let o' = oracles_of sh o text in
+             of_cres (fun bs -> List (Atom "ok" :: List.map (fun (k, t) -> List [ss k; ss t]) bs))
+               (Compiler.compile_data sh o' Extracted.Consts.builtins text)
+           with Conflict m -> List [Atom "oracle-conflict"; Str m])
+      | _ -> raise (Shape "compiledata args"))
